@@ -30,17 +30,20 @@ type FNode struct {
 }
 
 type FGraph struct {
-	Nodes      []*FNode
-	Entry      int
-	Exit       int // normal return / fall off the end
-	Abort      int // no-return call (panic, os.Exit, Fatal)
-	Info       *types.Info
-	Body       *ast.BlockStmt
-	byNode     map[ast.Node]int
-	factsIn    []factSet
+	Nodes        []*FNode
+	Entry        int
+	Exit         int // normal return / fall off the end
+	Abort        int // no-return call (panic, os.Exit, Fatal)
+	Info         *types.Info
+	Body         *ast.BlockStmt
+	byNode       map[ast.Node]int
+	factsIn      []factSet
 	allFactsList []Fact
-	InitFacts  []Fact // facts inherited from the enclosing function (closures)
-	stableVars map[types.Object]bool
+	InitFacts    []Fact // facts inherited from the enclosing function (closures)
+	stableVars   map[types.Object]bool
+	transferFn   func(i int, s map[int]bool) map[int]bool
+	addFactFn    func(f Fact) int
+	allFactsPtr  *[]Fact
 }
 
 type Fact struct {
@@ -487,6 +490,10 @@ func depsOf(info *types.Info, vi *varInfo, exprs ...ast.Expr) factDeps {
 			case *ast.Ident:
 				o := info.Uses[t]
 				if o == nil {
+					// the defining occurrence of `x := ..` (facts generated by assignments)
+					o = info.Defs[t]
+				}
+				if o == nil {
 					return true
 				}
 				switch ob := o.(type) {
@@ -784,6 +791,97 @@ func (fg *FGraph) SolveFacts(vi *varInfo) {
 	}
 	fg.factsIn = in
 	fg.allFactsList = all
+	fg.transferFn = func(i int, s map[int]bool) map[int]bool { return transfer(i, factSet(s)) }
+	fg.addFactFn = add
+	fg.allFactsPtr = &all
+}
+
+// PathFactsAtPos enumerates, for a construct in the acyclic part of a function
+// (no node on any entry path lies on a cycle), the fact set known on each
+// individual entry path: the join over paths of FactsAtPos forgets facts that
+// hold for different reasons on different paths (`if i < 0 { i = 0 } else if
+// i >= n { i = n - 1 }`). ok is false when a path revisits a node or there are
+// more than limit paths.
+func (fg *FGraph) PathFactsAtPos(pos token.Pos, limit int) (sets [][]Fact, ok bool) {
+	id := fg.NodeOf(pos)
+	if id < 0 || fg.transferFn == nil {
+		return nil, false
+	}
+	// nodes from which id is reachable
+	reach := map[int]bool{id: true}
+	for changed := true; changed; {
+		changed = false
+		for _, n := range fg.Nodes {
+			if reach[n.ID] {
+				continue
+			}
+			for _, e := range n.Succ {
+				if reach[e.To] {
+					reach[n.ID] = true
+					changed = true
+					break
+				}
+			}
+		}
+	}
+	if !reach[fg.Entry] {
+		return nil, false
+	}
+	onStack := map[int]bool{}
+	ok = true
+	extra := fg.FactsAtPos(pos)[len(fg.FactsAt(id)):]
+	var dfs func(n int, s map[int]bool)
+	dfs = func(n int, s map[int]bool) {
+		if !ok {
+			return
+		}
+		if n == id {
+			var fs []Fact
+			for f := range s {
+				fs = append(fs, (*fg.allFactsPtr)[f])
+			}
+			fs = append(fs, extra...)
+			sets = append(sets, fs)
+			if len(sets) > limit {
+				ok = false
+			}
+			return
+		}
+		if onStack[n] {
+			ok = false
+			return
+		}
+		onStack[n] = true
+		out := fg.transferFn(n, s)
+		for _, e := range fg.Nodes[n].Succ {
+			if !reach[e.To] {
+				continue
+			}
+			s2 := map[int]bool{}
+			for f := range out {
+				s2[f] = true
+			}
+			if e.Cond != nil {
+				for _, a := range atomise(Fact{e.Cond, e.Tag, e.Truth}) {
+					s2[fg.addFactFn(a)] = true
+					delete(s2, fg.addFactFn(Fact{a.Cond, a.Tag, !a.Truth}))
+				}
+			}
+			dfs(e.To, s2)
+		}
+		onStack[n] = false
+	}
+	init := map[int]bool{}
+	for _, f := range fg.InitFacts {
+		for _, a := range atomise(f) {
+			init[fg.addFactFn(a)] = true
+		}
+	}
+	dfs(fg.Entry, init)
+	if !ok || len(sets) == 0 {
+		return nil, false
+	}
+	return sets, true
 }
 
 // FactsAt returns the branch facts known on entry to node id.
@@ -1100,7 +1198,9 @@ func writesNothing(f *types.Func, depth int) bool {
 	return ok
 }
 
-// genFactsOf: facts established by executing node n (constant assignments).
+// genFactsOf: facts established by executing node n: `x = K`, `x = pure
+// integer expression` (x == e, killed like any other fact when an operand is
+// re-bound), `x = min(a, b)` (x <= a, x <= b) and `x = max(a, b)`.
 func genFactsOf(fg *FGraph, vi *varInfo, n ast.Node) []Fact {
 	as, ok := n.(*ast.AssignStmt)
 	if !ok || len(as.Lhs) != 1 || len(as.Rhs) != 1 || (as.Tok != token.ASSIGN && as.Tok != token.DEFINE) {
@@ -1117,13 +1217,149 @@ func genFactsOf(fg *FGraph, vi *varInfo, n ast.Node) []Fact {
 	if ob == nil || vi == nil || !vi.stable[ob] {
 		return nil
 	}
-	tv, ok := fg.Info.Types[as.Rhs[0]]
-	if !ok || tv.Value == nil || !isIntegerType(tv.Type) {
+	rhs := as.Rhs[0]
+	tv, ok := fg.Info.Types[rhs]
+	if !ok || !isIntegerType(tv.Type) {
+		return nil
+	}
+	mentionsSelf := false
+	ast.Inspect(rhs, func(x ast.Node) bool {
+		if i2, ok := x.(*ast.Ident); ok && fg.Info.Uses[i2] == ob {
+			mentionsSelf = true
+		}
+		return true
+	})
+	if mentionsSelf {
 		return nil
 	}
 	var out []Fact
-	for _, op := range []token.Token{token.EQL, token.GEQ, token.LEQ} {
-		out = append(out, Fact{&ast.BinaryExpr{X: id, Op: op, Y: as.Rhs[0]}, nil, true})
+	if tv.Value != nil || isPureIntExpr(fg.Info, rhs) {
+		for _, op := range []token.Token{token.EQL, token.GEQ, token.LEQ} {
+			out = append(out, Fact{&ast.BinaryExpr{X: id, Op: op, Y: rhs}, nil, true})
+		}
+		return out
+	}
+	if ce, ok := ast.Unparen(rhs).(*ast.CallExpr); ok && len(ce.Args) >= 2 {
+		if k := minMaxKind(fg.Info, ce); k != 0 {
+			op := token.LEQ
+			if k > 0 {
+				op = token.GEQ
+			}
+			for _, a := range ce.Args {
+				if _, isC := constInt(fg.Info, a); isC || isPureIntExpr(fg.Info, a) {
+					out = append(out, Fact{&ast.BinaryExpr{X: id, Op: op, Y: a}, nil, true})
+				}
+			}
+		}
 	}
 	return out
+}
+
+// isPureIntExpr: variables, fields, len/cap of variables or fields, integer
+// constants, combined with + and -. Evaluating it has no effect and its value
+// changes only when one of the mentioned variables or fields is re-bound.
+func isPureIntExpr(info *types.Info, e ast.Expr) bool {
+	e = ast.Unparen(e)
+	if tv, ok := info.Types[e]; ok && tv.Value != nil {
+		return true
+	}
+	switch t := e.(type) {
+	case *ast.Ident:
+		_, isVar := info.Uses[t].(*types.Var)
+		return isVar
+	case *ast.SelectorExpr:
+		return isPlainPath(info, t)
+	case *ast.BinaryExpr:
+		if t.Op == token.ADD || t.Op == token.SUB {
+			return isPureIntExpr(info, t.X) && isPureIntExpr(info, t.Y)
+		}
+	case *ast.CallExpr:
+		n := calleeName(info, t)
+		if (n == "builtin.len" || n == "builtin.cap") && len(t.Args) == 1 {
+			a := ast.Unparen(t.Args[0])
+			switch at := a.(type) {
+			case *ast.Ident:
+				_, isVar := info.Uses[at].(*types.Var)
+				return isVar
+			case *ast.SelectorExpr:
+				return isPlainPath(info, at)
+			}
+		}
+	}
+	return false
+}
+
+// isPlainPath: x.f.g with x a variable and every selection a struct field.
+func isPlainPath(info *types.Info, se *ast.SelectorExpr) bool {
+	sel, ok := info.Selections[se]
+	if !ok || sel.Kind() != types.FieldVal {
+		return false
+	}
+	switch x := ast.Unparen(se.X).(type) {
+	case *ast.Ident:
+		_, isVar := info.Uses[x].(*types.Var)
+		return isVar
+	case *ast.SelectorExpr:
+		return isPlainPath(info, x)
+	}
+	return false
+}
+
+// minMaxKind: -1 when the call computes the minimum of its integer arguments,
+// +1 for the maximum, 0 otherwise. Recognised: the min/max builtins and
+// two-parameter repository functions whose whole body is
+// `if a OP b { return a }; return b`.
+func minMaxKind(info *types.Info, ce *ast.CallExpr) int {
+	switch calleeName(info, ce) {
+	case "builtin.min":
+		return -1
+	case "builtin.max":
+		return 1
+	}
+	f := calleeFunc(info, ce)
+	if f == nil || curCtx == nil || f.Pkg() == nil || !curCtx.IsRarePkg(f.Pkg()) {
+		return 0
+	}
+	fi := funcDeclOf(curCtx, f)
+	if fi == nil || fi.Decl.Recv != nil || len(fi.Decl.Body.List) != 2 {
+		return 0
+	}
+	var ps []types.Object
+	for _, fld := range fi.Decl.Type.Params.List {
+		for _, nm := range fld.Names {
+			ps = append(ps, fi.Pkg.TypesInfo.Defs[nm])
+		}
+	}
+	if len(ps) != 2 {
+		return 0
+	}
+	is, ok := fi.Decl.Body.List[0].(*ast.IfStmt)
+	ret2, ok2 := fi.Decl.Body.List[1].(*ast.ReturnStmt)
+	if !ok || !ok2 || is.Init != nil || is.Else != nil || len(is.Body.List) != 1 || len(ret2.Results) != 1 {
+		return 0
+	}
+	ret1, ok := is.Body.List[0].(*ast.ReturnStmt)
+	be, okb := ast.Unparen(is.Cond).(*ast.BinaryExpr)
+	if !ok || !okb || len(ret1.Results) != 1 {
+		return 0
+	}
+	hi := fi.Pkg.TypesInfo
+	x, y := identObj(hi, be.X), identObj(hi, be.Y)
+	r1, r2 := identObj(hi, ret1.Results[0]), identObj(hi, ret2.Results[0])
+	if x == nil || y == nil || x == y || !((x == ps[0] && y == ps[1]) || (x == ps[1] && y == ps[0])) {
+		return 0
+	}
+	if r1 == nil || r2 == nil || r1 == r2 || (r1 != x && r1 != y) || (r2 != x && r2 != y) {
+		return 0
+	}
+	// `if x OP y { return r1 }; return r2`
+	less := be.Op == token.LSS || be.Op == token.LEQ
+	greater := be.Op == token.GTR || be.Op == token.GEQ
+	if !less && !greater {
+		return 0
+	}
+	if (less && r1 == x) || (greater && r1 == y) {
+		return -1
+	}
+	return 1
 }
